@@ -16,6 +16,17 @@ def _alarm(signum, frame):
     raise CaseTimeout()
 
 
+def _np(o):
+    import numpy
+    if isinstance(o, numpy.integer):
+        return int(o)
+    if isinstance(o, numpy.floating):
+        return float(o)
+    if isinstance(o, numpy.ndarray):
+        return o.tolist()
+    raise TypeError(type(o).__name__)
+
+
 def main():
     runner, fin, fout = sys.argv[1:4]
     modname, func = runner.rsplit(".", 1)
@@ -43,7 +54,7 @@ def main():
                 rec = {"case": c.get("case"), "harness_error": traceback.format_exc()}
             finally:
                 sys.stdout = real_stdout
-            out.write(json.dumps(rec, separators=(",", ":")) + "\n")
+            out.write(json.dumps(rec, separators=(",", ":"), default=_np) + "\n")
 
 
 if __name__ == "__main__":
